@@ -614,6 +614,40 @@ impl Task for BodyReader {
                             }
                         }
                     }
+                    RecvOp::PollDataWait => {
+                        // (H2Tasks) blocking variant: the task stays parked in poll_data until it returns Ready
+                        if let Some(rs) = self.rs.as_mut() {
+                            match rs.poll_data(cx) {
+                                Poll::Pending => {
+                                    api.ev("poll_data", sid, tag, "pending", json!({}));
+                                    self.blocked = Some("poll_data".into());
+                                    return TP::Pending;
+                                }
+                                Poll::Ready(None) => api.ev("poll_data", sid, tag, "none", json!({"eos": rs.is_end_stream()})),
+                                Poll::Ready(Some(Err(e))) => api.ev("poll_data", sid, tag, "err", json!({"e": err_json(&e)})),
+                                Poll::Ready(Some(Ok(b))) => {
+                                    let ok = intact(tag, self.off, &b);
+                                    api.ev("poll_data", sid, tag, "some", json!({"n": b.len(), "off": self.off, "intact": ok, "eos": rs.is_end_stream()}));
+                                    self.off += b.len() as u64;
+                                }
+                            }
+                        }
+                    }
+                    RecvOp::PollTrailers => {
+                        // (H2Tasks) blocking poll_trailers
+                        if let Some(rs) = self.rs.as_mut() {
+                            match rs.poll_trailers(cx) {
+                                Poll::Pending => {
+                                    api.ev("poll_trailers", sid, tag, "pending", json!({}));
+                                    self.blocked = Some("poll_trailers".into());
+                                    return TP::Pending;
+                                }
+                                Poll::Ready(Ok(None)) => api.ev("poll_trailers", sid, tag, "none", json!({"eos": rs.is_end_stream()})),
+                                Poll::Ready(Ok(Some(m))) => api.ev("poll_trailers", sid, tag, "some", json!({"hdr": canon_map(&m, &[]), "eos": rs.is_end_stream()})),
+                                Poll::Ready(Err(e)) => api.ev("poll_trailers", sid, tag, "err", json!({"e": err_json(&e)})),
+                            }
+                        }
+                    }
                     RecvOp::PollData => {
                         if let Some(rs) = self.rs.as_mut() {
                             match rs.poll_data(cx) {
@@ -1063,6 +1097,10 @@ impl Task for ClientReq {
                     let eos = self.prog.eos;
                     let r = self.sr.as_mut().unwrap().send_request(req, eos);
                     sim.reg.reqs_issued += 1;
+                    if let (Some(k), true) = (self.prog.ready_after, r.is_ok()) {
+                        // (H2Tasks) the clone, with its `pending` stream, moves to a task of its own that waits in poll_ready
+                        sim.spawn.push(Box::new(ReadyWaiter { name: format!("cy{}", tag), tag, sr: self.sr.take(), at: k, blocked: None, waitq: None }));
+                    }
                     self.sr = None; // drop our clone
                     match r {
                         Ok((resp, stream)) => {
@@ -1090,6 +1128,57 @@ impl Task for ClientReq {
                 }
             }
         }
+    }
+}
+
+/// (H2Tasks) a SendRequest handle that has just sent a request (its `pending` stream may still wait for a concurrency slot):
+/// calls poll_ready at quiescence `at` and parks in it until it returns Ready; then drops the handle
+pub struct ReadyWaiter {
+    pub name: String,
+    pub tag: u32,
+    pub sr: Option<client::SendRequest<Bytes>>,
+    pub at: usize,
+    pub blocked: Option<String>,
+    pub waitq: Option<usize>,
+}
+
+impl Task for ReadyWaiter {
+    fn name(&self) -> &str {
+        &self.name
+    }
+    fn ep(&self) -> usize {
+        0
+    }
+    fn outstanding(&self) -> Option<String> {
+        self.blocked.clone()
+    }
+    fn waiting_q(&self) -> Option<usize> {
+        self.waitq
+    }
+    fn poll(&mut self, cx: &mut Context<'_>, sim: &mut SimCtx<'_>) -> TP {
+        let name = self.name.clone();
+        let api = Api { w: sim.w, ep: 0, task: &name };
+        self.blocked = None;
+        self.waitq = None;
+        if sim.reg.nq < self.at {
+            self.waitq = Some(self.at);
+            return TP::Pending;
+        }
+        let sr = match self.sr.as_mut() {
+            Some(s) => s,
+            None => return TP::Done,
+        };
+        match sr.poll_ready(cx) {
+            Poll::Pending => {
+                api.ev("poll_ready", 0, self.tag, "pending", json!({}));
+                self.blocked = Some("poll_ready".into());
+                return TP::Pending;
+            }
+            Poll::Ready(Ok(())) => api.ev("poll_ready", 0, self.tag, "ok", json!({})),
+            Poll::Ready(Err(e)) => api.ev("poll_ready", 0, self.tag, "err", json!({"e": err_json(&e)})),
+        }
+        self.sr = None;
+        TP::Done
     }
 }
 
